@@ -13,6 +13,7 @@
   Whole calls (refinement, `Lemmas/FrameInv.lean`): `body_is_structured` — running a function body
   `{ b } ফেরত re;` of a structured program is the structured meaning `sBody`: the block, then the operand of
   the first `ফেরত` reached (from any depth of blocks, chains and loops) or of the closing `ফেরত re;`;
+  `call_is_bind_then_body` — a call of a user function as a whole is: positional binding in a fresh scope, `sBody`, cut back;
   `call_leaves_caller_frames` — ANY expression evaluation, whatever user functions it calls and to whatever
   recursion depth (direct or mutual), returns with the caller's loop stack, pending-conditional flags and scope
   depth exactly as they were.  That the caller's scopes below the cut keep their *contents* is the C04 lemma
@@ -130,5 +131,56 @@ theorem call_leaves_caller_frames {prog : List Stmt} (h : Structured prog) (f : 
     s'.loops = s.loops ∧ s'.flags = s.flags ∧ s'.scopes.length = s.scopes.length :=
   eval_frame h f cur e s v s' hsuf hw hs he
 
+
+/-- **a call, as a whole**: in a structured program a call of a user function is: bind the arguments to the parameters by
+    position in a fresh scope (`bindParams`), run the structured meaning of the function's body `{ b } ফেরত re;` there
+    (`sBody`: the value of the first `ফেরত` reached, from whatever depth), and cut the scope, loop and flag stacks back to
+    their heights before the call -/
+theorem call_is_bind_then_body {prog : List Stmt} (h : Structured prog) (F : Nat) (cur : List Stmt) (callee : Expr) (args : Exprs)
+    (s : St) (tok : Token) (vm : Meta) (rem : Nat) (params : List Str) (env : Scope) (s1 : St) (r : Res (Val × St))
+    (hsuf : IsSuffixOf cur prog) (hargs : args.wf = true) (hs : StOK (GoodFn prog) prog s)
+    (hcallee : stripGroups callee = .var tok vm) (hnb : isBuiltin tok.lexeme = false)
+    (hlook : lookupVar s.scopes tok.lexeme = some (.func rem params))
+    (hbind : bindParams prog F cur params args [] s = .ok (env, s1))
+    (hrun : evalCall prog (F+1) cur callee args s = r) (hr : r ≠ .fuel) :
+    ∃ b re rm k, bodyOf prog rem = SBlock.flatten b ++ (Stmt.ret re rm :: k) ∧
+      r = (sBody prog F b re rm k { s1 with scopes := env :: s1.scopes }).bind fun x =>
+        .ok (x.1, { x.2 with
+          scopes := x.2.scopes.drop (x.2.scopes.length - s1.scopes.length)
+          loops := x.2.loops.drop (x.2.loops.length - s1.loops.length)
+          flags := x.2.flags.drop (x.2.flags.length - s1.flags.length) }) := by
+  have hgf : GoodFn prog rem params := by
+    have := lookupVar_ok (GoodFn prog) hs.scopes.2 hlook
+    simpa [ValOK] using this
+  obtain ⟨b, re, rm, k, hbody, hwf, hcl⟩ := hgf
+  refine ⟨b, re, rm, k, hbody, ?_⟩
+  have hgood := (h.inv F).bindParams cur params args [] s hsuf hargs hs (by intro kv hkv; simp at hkv)
+  rw [hbind] at hgood
+  obtain ⟨hs1, henv, _⟩ := hgood
+  have hs1' : StOK (GoodFn prog) prog { s1 with scopes := env :: s1.scopes } := ⟨hs1.heap, hs1.scopes.cons _ henv, hs1.loops⟩
+  have hbs : IsSuffixOf (SBlock.flatten b ++ (Stmt.ret re rm :: k)) prog := by rw [← hbody]; exact bodyOf_suffix prog rem
+  simp only [evalCall, hcallee, hnb, hlook, hbind, Res.bind, hbody] at hrun
+  cases b with
+  | mk bs ss be =>
+    simp only [SBlock.flatten, List.cons_append] at hrun hbs hbody ⊢
+    cases hcl2 : callLoop prog F (Stmt.blockStart bs :: (ss.flatten ++ [Stmt.blockEnd be] ++ Stmt.ret re rm :: k)) { s1 with scopes := env :: s1.scopes } with
+    | fuel =>
+      simp only [Bool.false_eq_true, if_false, hcl2] at hrun
+      exact (hr hrun.symm).elim
+    | ok x =>
+      have := call_refines h (.mk bs ss be) re rm k hwf hcl (by simpa [SBlock.flatten] using hbs) _ hs1' F _
+        (by simpa [SBlock.flatten] using hcl2) (by simp)
+      simp only [Bool.false_eq_true, if_false, hcl2] at hrun
+      rw [this, ← hrun]; rfl
+    | err e =>
+      have := call_refines h (.mk bs ss be) re rm k hwf hcl (by simpa [SBlock.flatten] using hbs) _ hs1' F _
+        (by simpa [SBlock.flatten] using hcl2) (by simp)
+      simp only [Bool.false_eq_true, if_false, hcl2] at hrun
+      rw [this, ← hrun]; rfl
+    | panic p =>
+      have := call_refines h (.mk bs ss be) re rm k hwf hcl (by simpa [SBlock.flatten] using hbs) _ hs1' F _
+        (by simpa [SBlock.flatten] using hcl2) (by simp)
+      simp only [Bool.false_eq_true, if_false, hcl2] at hrun
+      rw [this, ← hrun]; rfl
 end C05
 end Pakhi
